@@ -23,6 +23,7 @@ RULE = ('Hypothesis generates aperture-dependent packages (1..8 tabulated apertu
         'all its fits. Non-trivial = a compared (source, model) pair on a grid with >=2 distances and >=2 apertures, or '
         'with an aperture request clamped at the largest tabulated aperture.')
 RULE += (' ' + 'Also varied: the same filter listed twice with two angular apertures, mixed named / wavelength filter lists, stored units Jy / mJy, per-filter aperture tables, aperture axis stored in any order, distance ranges typed as round numbers in pc / kpc, .gz files, long model names.')
+RULE += (' ' + 'A second fitter (another distance range) is kept alive next to the one examined in half of the cases.')
 ASSUMPTIONS = [
     'when (log10 dmax - log10 dmin)/step is within 1e-9 of an integer both neighbouring grid sizes are accepted',
     'sources whose fitted points all have zero extinction coefficient are outside the domain (counted, skipped)',
